@@ -559,8 +559,34 @@ fn run_cast(s: &str, d: &str, v: &str) -> Option<String> {
     }
 }
 
+/// relational run beyond the token grid (a `TimeDelta` token carries nanoseconds in an `i64`, i.e. at
+/// most ±292 years): a non-null `TimeDelta` of `secs` whole seconds, `months = 0`, cast to `Option<T>`
+/// must be `Some` of its cast to `T` — casting composes through `Option`, and a non-null source never
+/// becomes null — for every numeric target of the time casts. `OK` | `NE:<opt>:<plain>` | `P`
+fn run_tdopt(d: &str, secs: i64) -> String {
+    let x = TimeDelta { months: 0, inner: chrono::Duration::seconds(secs) };
+    macro_rules! go { ($T:ty) => {{
+        let a = catch(|| Cast::<Option<$T>>::cast(x.clone()));
+        let b = catch(|| Cast::<$T>::cast(x.clone()));
+        match (a, b) {
+            (Some(a), Some(b)) => {
+                let same = match &a { Some(v) => format!("{:?}", v) == format!("{:?}", b), None => false };
+                if same { "OK".to_string() } else { format!("NE:{:?}:{:?}", a, b).replace(' ', "") }
+            },
+            (None, None) => "OK".to_string(),       // both panic: no value on either side
+            _ => "P".to_string(),
+        }
+    }} }
+    match d {
+        "i64" => go!(i64), "f64" => go!(f64), "f32" => go!(f32), "i32" => go!(i32), "u8" => go!(u8),
+        "u64" => go!(u64), "usize" => go!(usize), "isize" => go!(isize), "bool" => go!(bool),
+        _ => "?badcase".into(),
+    }
+}
+
 pub fn run(r: &Req) -> Option<String> {
     match r.f.as_str() {
+        "c15_tdopt" => Some(run_tdopt(r.s("d"), r.i64("secs"))),
         "c15_null" => Some(run_null(r.s("ty"), r.s("v")).unwrap_or_else(|| "?badcase".into())),
         "c15_cast" => Some(run_cast(r.s("s"), r.s("d"), r.s("v")).unwrap_or_else(|| "?badcase".into())),
         "c15_ord" => Some(run_ord(r.s("ty"), r.s("p"), r.s("q"), r.s("r")).unwrap_or_else(|| "?badcase".into())),
@@ -803,6 +829,7 @@ fn ord_grid(ty: &str, big: bool) -> Vec<String> {
 
 pub fn valid_case(r: &Req) -> bool {
     match r.f.as_str() {
+        "c15_tdopt" => ["i64", "f64", "f32", "i32", "u8", "u64", "usize", "isize", "bool"].contains(&r.s("d")) && r.s("secs").parse::<i64>().is_ok(),
         "c15_null" => valid_tok(r.s("ty"), r.s("v")),
         "c15_ord" => valid_tok(r.s("ty"), r.s("p")) && valid_tok(r.s("ty"), r.s("q")) && valid_tok(r.s("ty"), r.s("r")),
         "c15_cast" => {
@@ -853,6 +880,14 @@ pub fn generate(tier: &str, rng: &mut Rng) -> (Vec<String>, bool) {
             if valid_case(&Req::parse(&l)) {
                 out.push(l);
             }
+        }
+    }
+    // 2b. durations beyond the nanosecond tokens (±292 years … ±292 thousand years and further): the
+    //     cast to `Option<T>` is `Some` of the cast to `T`
+    for d in ["i64", "f64", "f32", "i32", "u8", "u64", "usize", "isize", "bool"] {
+        for secs in [0i64, 1, -1, 3, 9_223_372_036, 9_223_372_037, -9_223_372_037, 12_096_000_000_000, -12_096_000_000_000,
+            9_223_372_036_854, 9_223_372_036_855, -9_223_372_036_855, 9_223_372_036_854_775, -9_223_372_036_854_775] {
+            out.push(format!("c15_tdopt d={} secs={}", d, secs));
         }
     }
     // 3. all triples of the order grid
@@ -937,7 +972,12 @@ pub fn tags(r: &Req, imp: &str) -> Vec<String> {
 }
 
 /// F-C15-1: `"None".cast::<f32/f64>()` (String / &str) panics instead of giving NaN
+/// F47: a non-null `TimeDelta` whose microsecond count overflows an `i64` casts to `Option<i64>` as
+/// `None` (and to `i64` as `i64::MIN`): the two hand-written impls pick different overflow sentinels
 pub fn known_finding(r: &Req, imp: &str, _spec: &str) -> Option<String> {
+    if r.f == "c15_tdopt" && r.s("d") == "i64" && imp.starts_with("NE:None:") {
+        return Some("F47".into());
+    }
     if r.f == "c15_cast" && (r.s("s") == "str" || r.s("s") == "sref") && (r.s("d") == "f32" || r.s("d") == "f64") && r.s("v") == "None" && imp.starts_with("P;") {
         return Some("F-C15-1".into());
     }
